@@ -55,6 +55,27 @@ def extract_inputs(ctx: Ctx, model):
     return out
 
 
+def nonzero_denominators(terms):
+    """constraints den != 0 for every real division in the query: z3's x/0 is an arbitrary value, CPython raises"""
+    out = []
+    seen = set()
+    stack = list(terms)
+    while stack:
+        x = stack.pop()
+        if x.get_id() in seen:
+            continue
+        seen.add(x.get_id())
+        if z3.is_quantifier(x):
+            continue
+        if z3.is_app(x):
+            if x.decl().kind() == z3.Z3_OP_DIV:
+                d = x.children()[1]
+                if not (z3.is_rational_value(d) or z3.is_int_value(d)):
+                    out.append(d != 0)
+            stack.extend(x.children())
+    return out
+
+
 def small_model_constraints(ctx: Ctx, bound):
     cs = []
     for name, val in ctx.inputs.items():
@@ -65,8 +86,9 @@ def small_model_constraints(ctx: Ctx, bound):
     return cs
 
 
-def find_model(ob, axioms, ctx, timeout_ms=30000):
-    for bound in (3, 6, 12, None):
+def find_model(ob, axioms, ctx, timeout_ms=8000):
+    last = "unknown"
+    for bound in (4, None):
         s = z3.Solver()
         s.set("timeout", timeout_ms)
         for a in axioms:
@@ -74,6 +96,8 @@ def find_model(ob, axioms, ctx, timeout_ms=30000):
         for h in ob.hyps:
             s.add(h)
         s.add(z3.Not(ob.goal))
+        for e in nonzero_denominators(list(ob.hyps) + [ob.goal]):
+            s.add(e)
         if bound is not None:
             for c in small_model_constraints(ctx, bound):
                 s.add(c)
@@ -256,8 +280,16 @@ def refute(pid, key, label, obname, repo_src, replay_dir, seed=0):
     info["goal"] = str(z3.simplify(ob.goal))[:2000]
     attempts = []
     reals = [v for v in rr.ctx.inputs.values() if is_sym(v) and z3.is_real(v)]
-    extra_sets = [[], [v != 0 for v in reals], [v > 0 for v in reals]]
+    ranges = []
+    for name, (lo, hi) in rr.ctx.input_ranges.items():
+        v = rr.ctx.inputs.get(name)
+        if v is not None and is_sym(v) and lo < hi:
+            ranges.append(z3.And(v > lo, v < hi) if z3.is_real(v) else z3.And(v >= int(lo), v <= int(hi)))
+    extra_sets = [ranges + [v != 0 for v in reals], [], [v > 0 for v in reals]]
+    t_start = time.time()
     for extra in extra_sets:
+        if time.time() - t_start > 40:
+            break
         ob2 = type(ob)(ob.name, ob.kind, list(ob.hyps) + list(extra), ob.goal)
         model, bound, status = find_model(ob2, axioms, rr.ctx)
         info["solver_status"] = status if "solver_status" not in info or status == "sat" else info["solver_status"]
@@ -283,6 +315,60 @@ def refute(pid, key, label, obname, repo_src, replay_dir, seed=0):
             info["found_by"] = "solver model replayed on the real function"
             return info
         attempts.append(att)
+    # bounded refutation (DESIGN 2.7(3)): concrete small sizes so that loops unroll and sums are finite; the models of
+    # these quantifier-free queries are faithful.  Never used to claim that anything holds.
+    for size in getattr(c, "sizes", ()):
+        if time.time() - t_start > 90:
+            break
+        cfg2 = dict(cfg, _size=size)
+        reset_fresh()
+        try:
+            rr2 = verify_contract(c, label, cfg2, repo_src, snapshot_root=c.snapshot(cfg2), ensure_filter=flt)
+        except Exception:
+            continue
+        if rr2.unsupported:
+            continue
+        ax2 = list(rr2.ctx.global_axioms) + (list(c.extra_axioms(rr2.ctx)) if hasattr(c, "extra_axioms") else [])
+        ranges2 = []
+        for name, (lo, hi) in rr2.ctx.input_ranges.items():
+            v = rr2.ctx.inputs.get(name)
+            if v is not None and is_sym(v) and lo < hi and z3.is_real(v):
+                ranges2.append(z3.And(v > lo, v < hi))
+        for ob2 in rr2.obligations:
+            if ob2.kind not in ("post", "bounds", "pre"):
+                continue
+            for extra in (ranges2, []):
+                sv = z3.Solver()
+                sv.set("timeout", 8000)
+                for a in ax2:
+                    sv.add(a)
+                for h in ob2.hyps:
+                    sv.add(h)
+                for e in extra:
+                    sv.add(e)
+                sv.add(z3.Not(ob2.goal))
+                for e in nonzero_denominators(list(ob2.hyps) + [ob2.goal]):
+                    sv.add(e)
+                if sv.check() != z3.sat:
+                    continue
+                att = {"size": size, "bounded_obligation": ob2.name}
+                try:
+                    inputs = extract_inputs(rr2.ctx, sv.model())
+                    att["inputs"] = inputs
+                    co = run_real(c, cfg2, inputs, repo_src)
+                except Exception as e:
+                    att["note"] = f"{type(e).__name__}: {e}"
+                    attempts.append(att)
+                    continue
+                if _judge(c, co, att):
+                    info.update(att)
+                    info["confirmed"] = True
+                    info["config_values"] = {k: repr(v) for k, v in cfg2.items()}
+                    info["bounded_size"] = size
+                    info["found_by"] = f"bounded refutation: sizes fixed to {size}, model replayed on the real function"
+                    return info
+                attempts.append(att)
+                break
     # bounded refutation search on the real function (stated bound: 300 small random inputs)
     if c.snapshot(cfg) is None or hasattr(c, "sample_inputs"):
         rnd = random.Random(seed * 7919 + 17)
@@ -333,6 +419,8 @@ def replay_file(path, repo_src):
     pid = info["property"]
     cfgs = dict(c.configs_for(pid) if hasattr(c, "configs_for") else c.configs())
     cfg = cfgs[info["config"]]
+    if info.get("bounded_size") is not None:
+        cfg = dict(cfg, _size=info["bounded_size"])
     if "inputs" not in info:
         print("replay file carries no concrete inputs:", info.get("note"))
         return 2
